@@ -218,24 +218,23 @@ pub const KNEE_WCAG: f64 = 0.03928;
 pub const Y_WCAG: [f64; 3] = [0.2126, 0.7152, 0.0722];
 
 /// … and the same row derived from the sRGB primaries (x, y) and the D65 white point
-/// (Lindbloom's construction), which is what "Y of linear sRGB" means to full precision.
+/// (Lindbloom's construction, ASTM E308 D65 — `pv::refmodel::rgb`), which is what "Y of linear
+/// sRGB" (palette's documented `LinLuma`) means to full precision. The row derived with the
+/// 4-digit white of IEC 61966-2-1 (0.212639, 0.715169, 0.072192) lies between the two,
+/// component by component.
 pub fn y_row_from_primaries() -> [f64; 3] {
-    let prim = [(0.64, 0.33), (0.30, 0.60), (0.15, 0.06)];
-    let (xw, yw) = (0.31271, 0.32902); // D65 (CIE 15, 5 digits; the 4-digit WCAG row is insensitive to the 5th)
-    let col = |(x, y): (f64, f64)| [x / y, 1.0, (1.0 - x - y) / y];
-    let m = [col(prim[0]), col(prim[1]), col(prim[2])]; // columns
-    let mat = [[m[0][0], m[1][0], m[2][0]], [m[0][1], m[1][1], m[2][1]], [m[0][2], m[1][2], m[2][2]]];
-    let w = [xw / yw, 1.0, (1.0 - xw - yw) / yw];
-    let inv = pv::refmodel::invert(&mat);
-    let s = pv::refmodel::mat_vec(&inv, w);
-    [s[0], s[1], s[2]] // Y row = S_r·1, S_g·1, S_b·1
+    pv::refmodel::rgb::SRGB.rgb_to_xyz()[1]
 }
 
-/// Relative luminance of *linear* RGB for both readings of the coefficients: (lo, hi).
-pub fn luminance_hull(lin: [f64; 3], yrow: &[f64; 3]) -> (f64, f64) {
-    let a = Y_WCAG[0] * lin[0] + Y_WCAG[1] * lin[1] + Y_WCAG[2] * lin[2];
-    let b = yrow[0] * lin[0] + yrow[1] * lin[1] + yrow[2] * lin[2];
-    (a.min(b).clamp(0.0, 1.0), a.max(b).clamp(0.0, 1.0))
+/// Relative luminance interval of a *linear* RGB interval [lin_lo, lin_hi] (componentwise,
+/// non-negative) over every reading of the coefficients between the two rows: (lo, hi).
+pub fn luminance_hull(lin_lo: [f64; 3], lin_hi: [f64; 3], yrow: &[f64; 3]) -> (f64, f64) {
+    let (mut a, mut b) = (0.0, 0.0);
+    for i in 0..3 {
+        a += Y_WCAG[i].min(yrow[i]) * lin_lo[i];
+        b += Y_WCAG[i].max(yrow[i]) * lin_hi[i];
+    }
+    (a.clamp(0.0, 1.0), b.clamp(0.0, 1.0))
 }
 
 /// Decoded components for both knees: (componentwise min, componentwise max).
